@@ -120,6 +120,7 @@ def call_events(steps):
     return ev
 
 
+@driver.hang_is_failure(lambda why: ('fail', why, None, {}))
 def check_pair(P, inp, files, tier, scratch):
     try:
         I = xcase.interpret(P, inp, files, tier)
@@ -180,7 +181,7 @@ def check_pair(P, inp, files, tier, scratch):
             return 'fail', 'table: never-called %s at %d does not start with the entry sequence (bytes %s)' % (nme, off, image[off:off + 2].hex()), I, {}
     # (c) hexsim -t
     with open(ip, 'rb') as fin:
-        hs = subprocess.run([toolchain.tool('hexsim'), img, '-t'], stdin=fin, stdout=subprocess.PIPE, stderr=subprocess.PIPE, cwd=scratch, timeout=120)
+        hs = subprocess.run([toolchain.tool('hexsim'), img, '-t', '--max-cycles', str(len(steps) + 64)], stdin=fin, stdout=subprocess.PIPE, stderr=subprocess.PIPE, cwd=scratch, timeout=120)
     ok, why, entries = consume_trace(hs.stdout, steps, table)
     if not ok:
         return 'fail', 'trace: ' + why, I, {}
@@ -279,6 +280,7 @@ def replay(path):
 # Assembly programs with FUNC/PROC directives (the assembler's own symbol path, independent of xcmp)
 # ---------------------------------------------------------------------------
 
+@driver.hang_is_failure(lambda why: ('fail', why, {}))
 def check_tour(items, expected, scratch):
     """Tour program whose blocks are FUNC/PROC/plain labels: table = FUNC/PROC names in source order at the addresses
     the decode walk assigns; trace consumed under the guidance of the ISA reference."""
@@ -309,7 +311,7 @@ def check_tour(items, expected, scratch):
     if ro['status'] != 'exited' or bytes.fromhex(ro['out']) != expected:
         return 'fail', 'run: the tour printed %s (%s) on the ISA reference, expected %s' % (ro['out'], ro['status'], expected.hex()), {}
     steps = read_ref_trace(tr)
-    hs = subprocess.run([toolchain.tool('hexsim'), img, '-t'], stdin=subprocess.DEVNULL, stdout=subprocess.PIPE, stderr=subprocess.PIPE, cwd=scratch, timeout=120)
+    hs = subprocess.run([toolchain.tool('hexsim'), img, '-t', '--max-cycles', str(len(steps) + 64)], stdin=subprocess.DEVNULL, stdout=subprocess.PIPE, stderr=subprocess.PIPE, cwd=scratch, timeout=120)
     if not table:
         return 'ok', '', dict(symbols=0, callees=0, steps=len(steps))     # without symbols hexsim prints a different (unlabelled) format: nothing to check here
     ok2, why, entries = consume_trace(hs.stdout, steps, table)
